@@ -490,6 +490,8 @@ def _parity_case(ctx, kind, cols, layout, fn, axis, skipna, index, columns):
                 py_fail = f'frame.{fn}(skipna=True) = {seen}; ignoring the missing cells gives {want}'
     if kind == 'U' and fn == 'sum' and multi and axis == 0:
         tags['finding'] = F_STR_SUM
+    if multi and axis == 0 and not skipna and fn in UNITY and r == 1 and any(w == 1 for w, _ in layout):
+        tags['finding'] = F_ONE_ROW          # the same size-1 shortcut, whatever the dtype
     if kind == 'M' and fn in ('all', 'any') and multi and any(is2d for _, is2d in layout):
         tags['finding'] = F_DT_LOGICAL
     desc = dict(_common(cols, layout, index, columns), call=f'frame.{fn}(axis={axis}, skipna={skipna})', observed=_j(seen),
